@@ -17,6 +17,7 @@ def main():
     ap.add_argument("pid")
     ap.add_argument("--tier", default=os.environ.get("VERIF_TIER", "quick"))
     ap.add_argument("--list", action="store_true")
+    ap.add_argument("--relock", action="store_true", help="rewrite this property's entry of contracts/obligations.lock.json")
     a = ap.parse_args()
     seed = int(os.environ.get("VERIF_SEED", "0") or 0)
     try:
@@ -27,7 +28,12 @@ def main():
             for o in run.sink.obls:
                 print(o.name, o.kind, o.meta.get("label"))
             return 0
+        if a.relock:
+            run.lock = {}
         rc = run.finish()
+        if a.relock:
+            run.write_lock()
+            print("lock rewritten for %s: %d obligations" % (a.pid, sum(1 for o in run.sink.obls if o.status == "discharged")))
         if os.environ.get("PVC_TIMES"):
             for o in sorted(run.sink.obls, key=lambda o: -o.time)[:25]:
                 print("  %.2fs %s %s %s [%s]" % (o.time, o.status, o.solver, o.name, o.meta.get("label")))
